@@ -317,3 +317,72 @@ pub fn replay_history_pair<T: Sync>(case: &J, parse: &dyn Fn(&J) -> T, op: &(dyn
         Err((format!("history-changes-output:{name}"), format!("alone {}, after {}", alone.chars().take(200).collect::<String>(), after.chars().take(200).collect::<String>())))
     }
 }
+
+
+/// Free-running probe (supplementary, NOT exhaustive): the enumerations of a check are spread over
+/// 16 threads and assume that an operation's result does not depend on what other threads are doing.
+/// This probe decides that assumption first: `threads` OS threads apply `op` to rotations of the pool
+/// at once for `millis` ms; every result must equal the result obtained alone (on a fresh thread).
+/// Returns (operations done, first difference).
+pub fn free_running_probe<T: Sync>(pool: &[T], op: &(dyn Fn(&T) -> String + Sync), show: &(dyn Fn(&T) -> J + Sync), threads: usize, millis: u64) -> (u64, Option<String>) {
+    let alone: Vec<String> = pool.iter().map(|x| std::thread::scope(|s| s.spawn(|| crate::engine::guarded(|| op(x)).unwrap_or_else(|p| format!("panic: {p}"))).join().unwrap())).collect();
+    let total = std::sync::atomic::AtomicU64::new(0);
+    let stop = std::sync::atomic::AtomicBool::new(false);
+    let bad: std::sync::Mutex<Option<String>> = std::sync::Mutex::new(None);
+    let barrier = std::sync::Barrier::new(threads + 1);
+    std::thread::scope(|sc| {
+        for t in 0..threads {
+            let (alone, total, stop, bad, barrier) = (&alone, &total, &stop, &bad, &barrier);
+            sc.spawn(move || {
+                barrier.wait();
+                let mut done = 0u64;
+                let mut k = t * 3;
+                'outer: while !stop.load(std::sync::atomic::Ordering::Relaxed) {
+                    for _ in 0..16 {
+                        let i = k % pool.len();
+                        k += 1 + t;
+                        let got = crate::engine::guarded(|| op(&pool[i])).unwrap_or_else(|p| format!("panic: {p}"));
+                        done += 1;
+                        if got != alone[i] {
+                            let mut b = bad.lock().unwrap();
+                            if b.is_none() {
+                                *b = Some(format!("thread {t} of {threads}: the operation on {} gives {}, alone it gives {}", show(&pool[i]), got.chars().take(240).collect::<String>(), alone[i].chars().take(240).collect::<String>()));
+                            }
+                            stop.store(true, std::sync::atomic::Ordering::Relaxed);
+                            break 'outer;
+                        }
+                    }
+                }
+                total.fetch_add(done, std::sync::atomic::Ordering::Relaxed);
+            });
+        }
+        barrier.wait();
+        std::thread::sleep(std::time::Duration::from_millis(millis));
+        stop.store(true, std::sync::atomic::Ordering::Relaxed);
+    });
+    let b = bad.lock().unwrap().clone();
+    (total.load(std::sync::atomic::Ordering::Relaxed), b)
+}
+
+pub const FREE_SIG: &str = "free-running:operation-depends-on-other-threads";
+
+/// run the probe at the start of a check; Some(exit code) = the check stops here
+pub fn probe_first<T: Sync>(run: &mut crate::engine::Run, name: &str, pool: &[T], op: &(dyn Fn(&T) -> String + Sync), show: &(dyn Fn(&T) -> J + Sync)) -> bool {
+    let (n, bad) = free_running_probe(pool, op, show, 8, 350);
+    run.stats.evals += n;
+    run.note("free_running_probe_operations", json!(n));
+    run.assume("a supplementary free-running probe (8 threads, 0.35 s, NOT exhaustive) first checks that the operation's result does not depend on what other threads are doing — the enumeration itself is spread over 16 threads");
+    if let Some(d) = bad {
+        run.stats.fail(FREE_SIG, json!({"free_running": name}), d);
+        return true;
+    }
+    false
+}
+
+/// replay of a probe witness: the probe repeated, longer
+pub fn replay_probe<T: Sync>(pool: &[T], op: &(dyn Fn(&T) -> String + Sync), show: &(dyn Fn(&T) -> J + Sync)) -> Verdict {
+    match free_running_probe(pool, op, show, 16, 2500).1 {
+        Some(_) => Err((FREE_SIG.into(), "an operation's result differs while other threads run the same operation on other items".into())),
+        None => Ok(()),
+    }
+}
